@@ -17,11 +17,11 @@ PROPS = {
             'the HTTP/2 transport between the two ends (hyper/h2): that the client http::Response carries the status line, headers, DATA and trailers the server produced, under any fragmentation',
         ]),
     'C16': dict(
-        units=['webserver'], level='proof',
+        units=['webserver', 'webservice'], level='proof',
         not_covered=[
             'encode_trailers is under contract through the assumed HeaderMap::iter / Iterator::fold contracts (A-http-28, A-core-20) with three logged let-introductions (R20); a rewrite of it onto another iterator API (into_iter, for loops) leaves the shim and is reported undecided',
             'base64 itself (RFC 4648, decode of concatenated unpadded quanta) is assumed (A-b64-01); the whole-body statement follows from the per-call conservation clauses B1-B3 only under that assumption',
-            'service.rs (request classification 405/400/pass-through, coerce_request/response) is not yet under contract in this build',
+            'service.rs is under contract (unit webservice); tonic::body::Body is type-erased, so "the body reaches the inner service behind the decoding adapter" is stated through an uninterpreted erasure function (A-tonic-body-01); GrpcWebService::poll_ready (a forward) is not under contract',
             'CORS handling and the GrpcWebLayer wiring',
         ]),
     'C17': dict(
